@@ -8,6 +8,9 @@ CONSTANTS
   MaxMutations = 1
   CopyRef = TRUE
   CopyOnHit = FALSE
+  Qed = FALSE
+  TauTok = 100
+  TauBelow = 2
   CopyOnStore = TRUE
 INIT Init
 NEXT Next
